@@ -161,9 +161,36 @@ func c07r2(c *Ctx) {
 			}
 			reach := g.Reach(st, nil)
 			kinds := f.ReturnKindsFrom(st) // per path: a result copied into a named result keeps its meaning
+			// what a path knows about the returned error variable *on arrival at the reservation* counts too (a single
+			// exit `return v, err` behind `if err = broadcast(); err != nil { …; break }; reserve()`): walked from the
+			// entry, a return that hands back an error variable known to be nil on every path through the reservation
+			// is a success return
+			knownNil := map[*cfgx.Node]bool{}
+			maybeErr := map[*cfgx.Node]bool{}
+			f.ExploreFeasibleWith([]*cfgx.Visit{cfgx.StartAt(g.Entry, 0)}, cfgx.Walker{
+				AtNode: func(m *cfgx.Node, s cfgx.State) (cfgx.State, bool) {
+					if m == n {
+						s |= 1
+					}
+					return s, true
+				},
+			}, func(v *cfgx.Visit, val func(types.Object) uint64) {
+				rs, isRet := v.Node.AST.(*ast.ReturnStmt)
+				if !isRet || v.State&1 == 0 || len(rs.Results) == 0 {
+					return
+				}
+				if o := f.ObjOf(ast.Unparen(rs.Results[len(rs.Results)-1])); o != nil && val(o)&1 == 0 {
+					knownNil[v.Node] = true
+				} else {
+					maybeErr[v.Node] = true
+				}
+			})
 			bad := false
 			for _, r := range g.Returns() {
 				k := kinds[r]
+				if knownNil[r] && !maybeErr[r] {
+					continue
+				}
 				if v, ok := reach[r]; ok && (k&(1<<uint(ir.RetError)) != 0 || k&(1<<uint(ir.RetMaybe)) != 0) {
 					ob.Bad(c.Witness(v), "return at %s can carry an error after outputs were reserved at %s: a failed request keeps its reservation", c.P.Pos(r.Pos()), c.P.Pos(call.Pos()))
 					bad = true
